@@ -42,8 +42,8 @@ def _is_not_offered(e: BaseException) -> bool:
 
 def build_pool(tier: str):
     """Returns a list of (tag, constructor-text, value)."""
-    cmax = 7 if tier == 'quick' else 15
-    exps = range(-2, 3) if tier == 'quick' else range(-3, 4)
+    cmax = 15 if tier == 'quick' else 31
+    exps = range(-3, 4) if tier == 'quick' else range(-4, 5)
     pool = []
     for s in (False, True):
         for c in range(cmax + 1):
@@ -126,8 +126,8 @@ class Check(BaseCheck):
         self.pool = build_pool(tier)
 
     def bounds(self):
-        return {'pool': len(self.pool), 'cmax': 7 if self.tier == 'quick' else 15,
-                'exp_window': [-2, 2] if self.tier == 'quick' else [-3, 3]}
+        return {'pool': len(self.pool), 'cmax': 15 if self.tier == 'quick' else 31,
+                'exp_window': [-3, 3] if self.tier == 'quick' else [-4, 4]}
 
     def shards(self):
         n = len(self.pool)
